@@ -222,8 +222,10 @@ func checkC10(r *Run) {
 	r4 := r.Rule("R-C10-4", "retryQueue, subEstablished and newRetryByError are confined to the task goroutine")
 	r5 := r.Rule("R-C10-5", "the deleting signaller look-ups are called only from the reader goroutine's serve")
 	r6 := r.Rule("R-C10-6", "the id counter is accessed only through sync/atomic")
+	r7 := r.Rule("R-C10-7", "a variable captured by a goroutine closure is not written after that goroutine may have started (outside the goroutine itself)")
 	r1.Floor(25)
 	r3.Floor(9)
+	c.ruleCapturedVars(r7)
 	la := c.locks()
 	accs := c.collectAccesses()
 	ctxs, spawner, _ := c.goroutineContexts()
@@ -535,4 +537,82 @@ func preSpawnCtx(c *Ctx, la *lockAnalysis, spawner map[string]*ssa.Function, w f
 		}
 	})
 	return ok
+}
+
+// ruleCapturedVars: for every `go` statement whose callee is a closure, every captured variable (heap cell) must not be
+// stored to on any path after the go statement by the spawning function (or its other closures running in the spawner's
+// goroutine) — the spawned goroutine reads it without synchronisation.
+func (c *Ctx) ruleCapturedVars(rr *RuleRep) {
+	n := 0
+	for _, f := range c.Funcs {
+		eachInstr(f, func(in ssa.Instruction) {
+			g, ok := in.(*ssa.Go)
+			if !ok {
+				return
+			}
+			mc, ok := g.Call.Value.(*ssa.MakeClosure)
+			if !ok {
+				return
+			}
+			fn, _ := mc.Fn.(*ssa.Function)
+			for bi, b := range mc.Bindings {
+				cell, ok := c.addrRoot(b).(*ssa.Alloc)
+				if !ok {
+					continue
+				}
+				n++
+				name := cell.Comment
+				if fn != nil && bi < len(fn.FreeVars) {
+					name = fn.FreeVars[bi].Name()
+				}
+				key := FuncName(f) + "/go-capture/" + name
+				// is the variable used inside the goroutine at all?
+				bad := false
+				for _, st := range c.cellStores[cell] {
+					sf := st.Parent()
+					if fn != nil && (sf == fn || enclosingIs(sf, fn)) {
+						continue // written by the goroutine itself
+					}
+					if sf == f {
+						// a fresh cell is allocated each time control passes the `new` instruction: only paths that reach the store without re-allocating matter
+						if _, after := CanReach(f, in, func(x ssa.Instruction) bool { return x == ssa.Instruction(st) }, PathQ{BlockInstr: func(x ssa.Instruction) bool { return x == ssa.Instruction(cell) }}); after {
+							bad = true
+							rr.Bad(key, st.Pos(), "variable %s is captured by the goroutine started at %s and assigned again afterwards (e.g. on the next loop iteration): the goroutine reads whatever the variable holds when it gets round to it — a data race, and it may act on the wrong object", name, c.PosStr(in.Pos()))
+							break
+						}
+					} else if sf.Parent() == f || enclosingIs(sf, f) {
+						// another closure of the spawner: runs in the spawner's goroutine (e.g. sync.Once body) — a write there after the go races too
+						bad2 := false
+						for _, mc2 := range c.makeClosures[sf] {
+							if mc2.Parent() == f {
+								if _, after := CanReach(f, in, func(x ssa.Instruction) bool { return x == ssa.Instruction(mc2) }, PathQ{}); after {
+									bad2 = true
+								}
+							}
+						}
+						if bad2 {
+							bad = true
+							rr.Bad(key, st.Pos(), "variable %s is captured by the goroutine started at %s and written by closure %s created afterwards", name, c.PosStr(in.Pos()), FuncName(sf))
+							break
+						}
+					}
+				}
+				if !bad {
+					rr.OK(key, in.Pos(), "captured variable %s is not assigned after the goroutine starts", name)
+				}
+			}
+		})
+	}
+	if n == 0 {
+		rr.OKt("go-captures", token.NoPos, "no goroutine closure captures a variable")
+	}
+}
+
+func enclosingIs(f, anc *ssa.Function) bool {
+	for p := f.Parent(); p != nil; p = p.Parent() {
+		if p == anc {
+			return true
+		}
+	}
+	return false
 }
